@@ -694,6 +694,25 @@ def opSeqAxis (j : Json) : R Json := do
   pure <| Json.mkObj [("coords", listJson (fun (p : String × List (Option Nat)) =>
     Json.arr #[.str p.1, listJson (optJson natJson) p.2]) (seqAxisCoords gcs))]
 
+/-! ## op `table_coord` (C19) -/
+
+def opTableCoord (j : Json) : R Json := do
+  let tables ← field j "tables" >>= asList (asList asRat)
+  let pix ← field j "pix" >>= asList (asList asRat)
+  let inv ← field j "inv" >>= asList (asList asRat)
+  let slices ← field j "slices" >>= asList fun x => do
+    let a ← asArr x
+    match a with
+    | [s, e] => do pure ((← asOptInt s), (← asOptInt e))
+    | _ => .error "expected [start, stop]"
+  let grids ← field j "grids" >>= asList (asList asRat)
+  let sliced := List.zipWith (fun t (se : Option Int × Option Int) => sliceTable t se.1 se.2) tables slices
+  pure <| Json.mkObj [
+    ("values", listJson (fun p => listJson (optJson ratJson) (joinedP2W tables p)) pix),
+    ("inv", Json.arr (List.zipWith (fun t ys => listJson (optJson ratJson) (ys.map (invTable t))) tables inv).toArray),
+    ("sliced", listJson (listJson ratJson) sliced),
+    ("interpolated", Json.arr (List.zipWith (fun t g => listJson (optJson ratJson) (interpolateTable t g)) tables grids).toArray)]
+
 def dispatch (j : Json) : R Json := do
   let op ← field j "op" >>= asStr
   match op with
@@ -716,6 +735,7 @@ def dispatch (j : Json) : R Json := do
   | "crop" => opCrop j
   | "crop_item" => opCropItem j
   | "seq_crop" => opSeqCrop j
+  | "table_coord" => opTableCoord j
   | "seq_coords" => opSeqCoords j
   | "seq_axis" => opSeqAxis j
   | _ => .error s!"unknown op {op}"
